@@ -513,6 +513,7 @@ type CaseC20 struct {
 	Rounds     int      `json:"rounds"`
 	Procs      int      `json:"gomaxprocs"`
 	Salt       uint64   `json:"salt"`
+	Lean       bool     `json:"lean,omitempty"` // goroutines only decode, re-encode and compare bytes (no harness reflection in the loop)
 	Millis     int      `json:"millis,omitempty"` // crowd mode: every goroutine keeps calling for this long (so that all of them are descheduled mid-call)
 }
 
@@ -579,7 +580,7 @@ func oracleC20Lean(c *CaseC20) *Failure {
 }
 
 func oracleC20(c *CaseC20) *Failure {
-	if c.Goroutines > 1000 {
+	if c.Goroutines > 1000 || c.Lean {
 		return oracleC20Lean(c)
 	}
 	old := runtime.GOMAXPROCS(max(1, c.Procs))
@@ -716,6 +717,13 @@ func TestC20(t *testing.T) {
 			}
 			mods := map[string]bool{}
 			ck, ext := 0, 0
+			heavy := rapid.IntRange(0, 7).Draw(rt, "heavy") == 7
+			if heavy {
+				n = 3
+				c.Goroutines = rapid.SampledFrom([]int{2, 4, 8}).Draw(rt, "gheavy")
+				c.Rounds = rapid.IntRange(4, 8).Draw(rt, "rheavy")
+				c.Lean = true
+			}
 			for i := 0; i < n; i++ {
 				var tn string
 				switch rapid.IntRange(0, 3).Draw(rt, "pick") {
@@ -732,6 +740,11 @@ func TestC20(t *testing.T) {
 				o := GenOpts{Mode: Canonical, MaxList: 300, BigProb: 50}
 				if c.Goroutines > 1000 {
 					o.BigProb = 2
+				}
+				if heavy && i < 3 {
+					// several big frames in flight at once (services and codecs that switch strategy for large inputs)
+					tn = frameOf(rapid.SampledFrom([]string{"sse", "szse", "szse", "sample"}).Draw(rt, "heavymod"))
+					o = GenOpts{Mode: Canonical, MaxList: 25000, BigProb: 1}
 				}
 				v, ft := GenValue(rt, tn, o)
 				c.Items = append(c.Items, v)
